@@ -1013,3 +1013,55 @@ def c_load(seed):
                                    level_map=zdict(e['level_map'], 'int', 'int')),
                 lambda e: dict(call='_load', u=e['u'], level_map=e['level_map'], source_vars=dict(e['b'].vars), target_vars=dict(e['t'].vars)),
                 muts=memo_muts('umap', lambda d: zdict(d, 'int', 'int')), managers=lambda e: {'self': e['t'], 'F': e['b']}, primary='self')
+
+
+# ---------------------------------------------------------------------------------------------------------------------
+# the order-only callers of swap (C07)
+def _order_mgr(rnd):
+    env = new_manager(rnd, nvars=rnd.randint(2, 5), held=rnd.randint(0, 3))
+    return env
+
+
+@case('dd.bdd._shift')
+def c_shift(seed):
+    def build(rnd):
+        env = _order_mgr(rnd)
+        n = len(env['b'].vars)
+        env.update(start=rnd.randrange(n), end=rnd.randrange(n))
+        return env
+    return Case('dd.bdd._shift', seed, build, lambda e: _dd()._shift(e['b'], e['start'], e['end'], e['b']._levels()),
+                lambda e: dict(bdd=None, start=zint(e['start']), end=zint(e['end']), levels=None), lambda e: dict(call='_shift', start=e['start'], end=e['end']))
+
+
+def _order_args(e):
+    inv = arr([(IntVal(l), NAMEZ[nm]) for nm, l in e['order'].items()], I, NAMEZ['zz'])
+    return dict(bdd=None, order=zdict(e['order'], 'name', 'int'), order_inv=inv)
+
+
+def _order_build(rnd):
+    env = _order_mgr(rnd)
+    names = list(env['b'].vars)
+    rnd.shuffle(names)
+    env['order'] = {nm: k for k, nm in enumerate(names)}
+    return env
+
+
+CASES['dd.bdd._sort_to_order'] = ('dd.bdd._sort_to_order', lambda seed: Case(
+    'dd.bdd._sort_to_order', seed, _order_build, lambda e: _dd()._sort_to_order(e['b'], e['order']), _order_args,
+    lambda e: dict(call='_sort_to_order', order=e['order'])))
+CASES['dd.bdd.reorder!order'] = ('dd.bdd.reorder!order', lambda seed: Case(
+    'dd.bdd.reorder!order', seed, _order_build, lambda e: _dd().reorder(e['b'], e['order']), _order_args,
+    lambda e: dict(call='reorder', order=e['order'])))
+
+
+@case('dd.bdd.reorder_to_pairs')
+def c_reorder_to_pairs(seed):
+    def build(rnd):
+        env = _order_mgr(rnd)
+        names = list(env['b'].vars)
+        rnd.shuffle(names)
+        k = rnd.randint(0, len(names) // 2)
+        env['pairs'] = {names[2 * i]: names[2 * i + 1] for i in range(k)}
+        return env
+    return Case('dd.bdd.reorder_to_pairs', seed, build, lambda e: _dd().reorder_to_pairs(e['b'], e['pairs']),
+                lambda e: dict(bdd=None, pairs=zdict(e['pairs'], 'name', 'name')), lambda e: dict(call='reorder_to_pairs', pairs=e['pairs']))
